@@ -673,10 +673,14 @@ def finalize(case, root):
 
 
 def decide(AN, cfg, cmd, cwd):
+    from . import lib
     try:
         with warnings.catch_warnings():
             warnings.simplefilter("ignore")    # ast.parse of a generated script may emit SyntaxWarning
-            return AN.analyze(cmd, cfg, Path(cwd)).action
+            # bounded: an analysis that opens a fifo would block for ever
+            return lib.with_timeout(lambda: AN.analyze(cmd, cfg, Path(cwd)).action, 20.0)
+    except lib.Timeout:
+        return "exn:hang"
     except Exception as e:  # noqa: BLE001
         return "exn:" + type(e).__name__
 
@@ -932,7 +936,9 @@ def _run_env(out, H, AN, cfg, scratch_root, tier, rng, replay, model, dump, deco
             try:
                 with warnings.catch_warnings():
                     warnings.simplefilter("ignore")
-                    return H.classify(_ctx(tokens, cwd)).action
+                    return _lib.with_timeout(lambda: H.classify(_ctx(tokens, cwd)).action, 20.0)
+            except _lib.Timeout:
+                return "exn:hang"
             except RuntimeError:
                 return "exn"          # Path.resolve: symlink loop
             except Exception as e:  # noqa: BLE001
@@ -1010,7 +1016,10 @@ def _run_env(out, H, AN, cfg, scratch_root, tier, rng, replay, model, dump, deco
                         continue
                     with warnings.catch_warnings():
                         warnings.simplefilter("ignore")
-                        ia = bool(H.analyze_python_file(Path(e[0]))[0])
+                        try:
+                            ia = bool(_lib.with_timeout(lambda: H.analyze_python_file(Path(e[0]))[0], 20.0))
+                        except _lib.Timeout:
+                            ia = "hang"
                     ma = fm.call("py_fs_analyze", fst, e[0])
                     n_an += 1
                     if ma is not None and (ma == "1") != ia:
